@@ -603,6 +603,10 @@ def gen_rrsig(ctx, rng):
             signer = g_rname(rng, origin)
         sig = [rng.choice([ty, ty, 1, 46]), u(rng, 8), labels, u(rng, 32), u(rng, 32), u(rng, 32), u(rng, 16), signer, rb(rng, 0, 8)]
         yield "rrsig", [3, sig, owner, cls, ty, rdatas, origin]
+    lo = [b"o" * 40, b"O" * 40, b"o" * 30, b""]
+    ls = [b"s" * 40, b"S" * 40]
+    for owner, labels in (([b"w"] + lo, 4), ([b"w"], 4), ([b"*", b"x"], 4)):
+        yield "rrsig", [3, [1, 8, labels, 300, 2, 1, 7, ls, b""], owner, 1, 1, [[[b"\x01\x02\x03\x04"], [[5, b"\x01\x02\x03\x04"]]]], lo]
     # out-of-range constructor arguments
     yield "rrsig", [3, [1, 8, 256, 0, 0, 0, 0, [b""], b""], [b"a", b""], 1, 1, [[[b"\x01\x02\x03\x04"], [[5, b"\x01\x02\x03\x04"]]]], None]
     yield "rrsig", [3, [65536, 8, 1, 0, 0, 0, 0, [b""], b""], [b"a", b""], 1, 1, [[[b"\x01\x02\x03\x04"], [[5, b"\x01\x02\x03\x04"]]]], None]
@@ -671,7 +675,9 @@ def gen_zone_names(rng, origin, rel):
         parent = rng.choice(stems)
         if len(parent) >= 4:
             continue
-        child = [rng.choice(pool)] + parent
+        # names are dictionary keys compared case-insensitively: the shared suffix may be spelled
+        # with a different letter case than the parent's own name
+        child = [rng.choice(pool)] + (nl.case_variant(rng, parent) if rng.random() < 0.4 else list(parent))
         if rng.random() < 0.25:
             child = [rng.choice(pool)] + child  # skip a level: empty non-terminal
         key = [r_lower(l) for l in child]
@@ -705,7 +711,7 @@ def gen_signzone(ctx, rng):
         nodes = []
         for stem in gen_zone_names(rng, origin, rel):
             ts = gen_zone_types(rng, stem, stem == [])
-            nm = list(stem) if rel else list(stem) + origin
+            nm = list(stem) if rel else list(stem) + (nl.case_variant(rng, origin) if rng.random() < 0.3 else origin)
             nodes.append([nm, ts])
         rng.shuffle(nodes)
         if not all(nl.fits(r_expand(n, origin)) for n, _ in nodes):
@@ -721,6 +727,8 @@ def gen_signzone(ctx, rng):
         yield "signzone", [8, ex, rel, [[nm(), [6]], [nm(b"sub"), [2]], [nm(b"x", b"sub"), [2]], [nm(b"y", b"x", b"sub"), [1]], [nm(b"subx"), [1]], [nm(b"SUB2"), [2, 43]], [nm(b"a", b"SUB2"), [28]]]]
         yield "signzone", [8, ex, rel, [[nm(b"z"), [1]], [nm(), [2, 6]], [nm(b"Z", b"a"), [1]], [nm(b"a"), [16, 46, 46]]]]
         yield "signzone", [8, ex, rel, [[nm(b"a"), [1]]]]  # no SOA
+        yield "signzone", [8, ex, rel, [[nm(), [6, 2]], [nm(b"Sub"), [2, 43]], [nm(b"ns1", b"sub"), [1]], [nm(b"NS2", b"SUB"), [28]],
+                                        [nm(b"deep", b"ns1", b"sub"), [16]], [nm(b"www"), [1]]]]
 
 
 def gen_zonemd(ctx, rng):
@@ -731,7 +739,7 @@ def gen_zonemd(ctx, rng):
         serial = u(rng, 32)
         for stem in gen_zone_names(rng, origin, rel)[: rng.choice([1, 2, 4, 8])]:
             apex = stem == []
-            nm = list(stem) if rel else list(stem) + origin
+            nm = list(stem) if rel else list(stem) + (nl.case_variant(rng, origin) if rng.random() < 0.3 else origin)
             rdss = []
             used = set()
             cands = [(1, t) for _, t in NAME_TYPES if _ == 1 and t not in (T["CNAME"], T["TKEY"], T["TSIG"], T["SOA"])] + PLAIN_TYPES
@@ -932,12 +940,28 @@ def impl(case):
             if len(log) != 1:
                 return Err(903, "make_ds did not hash exactly once")
             real = {1: hashlib.sha1, 2: hashlib.sha256, 4: hashlib.sha384}[dt](log[0]).digest()
-            ds2 = dns.dnssec.make_ds(N(owner), k, dt, policy=dns.dnssec.allow_all_policy)
+            ds2 = dns.dnssec.make_ds(N(owner), k, {1: "sha1", 2: "SHA256", 4: "Sha384"}[dt], policy=dns.dnssec.allow_all_policy)
             ok = int(ds.digest == real and ds2 == ds)
+            if dt != 1:  # SHA-1 creation is denied by the default policy used by make_cds
+                cds = dns.dnssec.make_cds(N(owner), k, dt)
+                ok &= int((cds.key_tag, cds.algorithm, cds.digest_type, cds.digest) == (ds.key_tag, ds.algorithm, ds.digest_type, ds.digest)
+                          and cds.rdtype == 59)
+                rds = dns.rdataset.Rdataset(1, 48)
+                rds.add(k, 300)
+                dsset = dns.dnssec.make_ds_rdataset((N(owner), rds), {dt})
+                ok &= int(len(dsset) == 1 and dsset[0].digest == ds.digest and dsset[0].key_tag == ds.key_tag)
             return [log[0], ds.key_tag, int(ds.algorithm), int(ds.digest_type), ok]
         if op == 5:
             _, name, salt, it, alg, _tbl = case
-            return dns.dnssec.nsec3_hash(N(name), bytes(salt), it, alg).encode()
+            h = dns.dnssec.nsec3_hash(N(name), bytes(salt), it, alg)
+            # the documented spellings of the same arguments
+            alts = [dns.dnssec.nsec3_hash(N(name), bytes(salt).hex(), it, alg),
+                    dns.dnssec.nsec3_hash(N(name), bytes(salt), it, "SHA1" if alg == 1 else alg)]
+            if not salt:
+                alts.append(dns.dnssec.nsec3_hash(N(name), None, it, alg))
+            if any(a != h for a in alts):
+                return Err(905, "nsec3_hash depends on the spelling of salt/algorithm")
+            return h.encode()
         if op == 6:
             bm = dns.rdtypes.util.Bitmap.from_rdtypes(list(case[1]))
             return [[w, bytes(b)] for w, b in bm.windows]
